@@ -1,5 +1,5 @@
-(* Lex/Fixed.v — model of ford/fixed2free2.py: FortranLine (__analyse, __convert, continueLine)
-   and convertToFree.  Lines are given as read from the file, i.e. including their trailing
+(* Lex/Fixed.v — model of ford/fixed2free2.py: _inline_comment_start, _insert_continuation,
+   FortranLine (__analyse, __convert, continueLine) and convertToFree.  Lines are given as read from the file, i.e. including their trailing
    newline character when they have one.  Executable definitions only. *)
 From Ford Require Import Base.Str Lex.Quote.
 
@@ -12,10 +12,35 @@ Definition from (a : nat) (x : str) : str := skipn a x.
 Definition str_isspace (x : str) : bool :=   (* "".isspace() is False *)
   match x with [] => false | _ => forallb is_space x end.
 
+Definition str_empty (x : str) : bool := match x with [] => true | _ => false end.
+
 Fixpoint contains_ch (c : ascii) (x : str) : bool :=
   match x with [] => false | d :: x' => Ascii.eqb c d || contains_ch c x' end.
 
 Definition ljust (n : nat) (x : str) : str := x ++ repeat " "%char (n - length x).
+
+(* _inline_comment_start(line): index of the first '!' outside character literals; a literal
+   is opened by an apostrophe or a double quote and closed by the next occurrence of the same character *)
+Fixpoint inline_comment_from (quote : option ascii) (i : nat) (x : str) : option nat :=
+  match x with
+  | [] => None
+  | c :: x' =>
+    match quote with
+    | Some q => inline_comment_from (if Ascii.eqb c q then None else quote) (S i) x'
+    | None =>
+      if contains_ch c (s "'""") then inline_comment_from (Some c) (S i) x'
+      else if Ascii.eqb c bang then Some i
+      else inline_comment_from None (S i) x'
+    end
+  end.
+Definition inline_comment_start (line : str) : option nat := inline_comment_from None 0 line.
+
+(* _insert_continuation(line): " &" after the statement text, before the inline comment *)
+Definition insert_continuation (line : str) : str :=
+  match inline_comment_start line with
+  | None => rstrip line ++ s " &"
+  | Some k => rstrip (firstn k line) ++ s " & " ++ rstrip (skipn k line)
+  end.
 
 Record fline := {
   f_conv : str;          (* line_conv *)
@@ -31,7 +56,7 @@ Definition analyse (length_limit : bool) (line0 : str) : fline :=
   let label0 := if 1 <? n then lower (strip (slice 0 5 line0)) ++ s " " else [] in
   let cont_char := if 6 <=? n then slice 5 6 line0 else [] in
   let fivechars := if 1 <? n then slice 1 5 line0 else [] in
-  let isShort := n <=? 6 in
+  let isShort := (n <=? 6) || str_empty (strip line0) in   (* len(line) <= 6 or not line.strip() *)
   let isLong := (73 <? n) && length_limit in
   let isComment0 := match firstchar with
                     | [] => true   (* "" in "cC*!" *)
@@ -59,8 +84,8 @@ Definition analyse (length_limit : bool) (line0 : str) : fline :=
 
 Definition continue_line (f : fline) : fline :=
   let conv :=
-    if negb (f_long f && f_regular f) then rstrip (f_conv f) ++ s " &" ++ [nl]
-    else ljust 72 (rstrip (firstn 72 (f_conv f)) ++ s " &") ++ f_excess f in
+    if negb (f_long f && f_regular f) then insert_continuation (f_conv f) ++ [nl]
+    else ljust 72 (insert_continuation (firstn 72 (f_conv f))) ++ f_excess f in
   {| f_conv := conv; f_regular := f_regular f; f_cont := f_cont f; f_long := f_long f; f_excess := f_excess f |}.
 
 (* convertToFree: the line stack holds the last regular line and the irregular lines after it *)
